@@ -40,6 +40,8 @@ TsmOK(e) ==
      /\ want = e.holds                          \* the recorder's construction agrees with the specification
      /\ ExtIsSmallOrder(O) = want /\ ExtIsSmallOrder(OX) = want
      /\ e.small = want /\ e.smallx = want
+     \* the same call with the receiver aliasing A, C (plain) and C (expanded)
+     /\ Has(e, "smallRecvA") => (e.smallRecvA = want /\ e.smallRecvC = want /\ e.smallRecvCx = want)
 
 EventOK(e) ==
   CASE e.op = "fsv" -> ~e.timeout /\ ShortOK(e)
